@@ -110,6 +110,43 @@ MUTANTS = [
                  "        e_i[...] = 0\n"
                  "        for k in range(n):"),
                 ("# step_ratio, parity, nterms\nFD_RULES = {}", "# step_ratio, parity, nterms\nFD_RULES = {}\n_SCRATCH = {}")]),
+    # ------------------------------------------------------------------ locks
+    dict(id='c09_correct_lock_around_cache', prop='C09', file=FD, expect='clean',
+         needs='nothing: guarding the rule cache with a module-level lock is a correct change; the '
+               'simulator must not hang or raise an alarm (cooperative lock seam, sim/locks.py)',
+         edits=[("import warnings\nimport numpy as np\nfrom numpy import linalg",
+                 "import threading\nimport warnings\nimport numpy as np\nfrom numpy import linalg"),
+                ("# step_ratio, parity, nterms\nFD_RULES = {}", "# step_ratio, parity, nterms\nFD_RULES = {}\n_FD_LOCK = threading.Lock()"),
+                ("        fd_rules = FD_RULES.get((step_ratio, parity, num_terms))\n"
+                 "        if fd_rules is None:\n"
+                 "            fd_mat = self._fd_matrix(step_ratio, parity, num_terms)\n"
+                 "            fd_rules = linalg.pinv(fd_mat)\n"
+                 "            FD_RULES[(step_ratio, parity, num_terms)] = fd_rules\n",
+                 "        with _FD_LOCK:\n"
+                 "            fd_rules = FD_RULES.get((step_ratio, parity, num_terms))\n"
+                 "            if fd_rules is None:\n"
+                 "                fd_mat = self._fd_matrix(step_ratio, parity, num_terms)\n"
+                 "                fd_rules = linalg.pinv(fd_mat)\n"
+                 "                FD_RULES[(step_ratio, parity, num_terms)] = fd_rules\n")]),
+    dict(id='c09_lock_order_deadlock', prop='C09', file=FD, expect='caught', modes='thr',
+         needs='one thread inside rule() (lock A then B) while another is inside _apply() (lock B then A)',
+         edits=[("import warnings\nimport numpy as np\nfrom numpy import linalg",
+                 "import threading\nimport warnings\nimport numpy as np\nfrom numpy import linalg"),
+                ("# step_ratio, parity, nterms\nFD_RULES = {}", "# step_ratio, parity, nterms\nFD_RULES = {}\n_LOCK_A = threading.RLock()\n_LOCK_B = threading.RLock()"),
+                ("        fd_rules = FD_RULES.get((step_ratio, parity, num_terms))\n"
+                 "        if fd_rules is None:\n"
+                 "            fd_mat = self._fd_matrix(step_ratio, parity, num_terms)\n"
+                 "            fd_rules = linalg.pinv(fd_mat)\n"
+                 "            FD_RULES[(step_ratio, parity, num_terms)] = fd_rules\n",
+                 "        with _LOCK_A:\n"
+                 "            with _LOCK_B:\n"
+                 "                fd_rules = FD_RULES.get((step_ratio, parity, num_terms))\n"
+                 "                if fd_rules is None:\n"
+                 "                    fd_mat = self._fd_matrix(step_ratio, parity, num_terms)\n"
+                 "                    fd_rules = linalg.pinv(fd_mat)\n"
+                 "                    FD_RULES[(step_ratio, parity, num_terms)] = fd_rules\n"),
+                ("        fd_rule = self.rule(step_ratio)\n\n        num_steps = h.shape[0]",
+                 "        with _LOCK_B:\n            fd_rule = self.rule(step_ratio)\n\n        num_steps = h.shape[0]")]),
     # ------------------------------------------------------------------ equivalent mutant (must NOT be flagged)
     dict(id='c09_equiv_lookup_copy', prop='C09', file=FD, expect='clean',
          needs='nothing: returning a copy of the cached row is behaviour preserving',
